@@ -33,6 +33,7 @@ ALWAYS_INLINE = {
     "wasm::WasmKeeper::instance_count",
     "transactions::RepLog::append",
     "prefixed_storage::namespace_helpers::trim",
+    "transactions::MergeOverlay::pick_match",
 }
 
 
@@ -407,6 +408,9 @@ COMBINATORS = {
     "std::option::Option::map_or": ("std::option::Option", "Some", "raw", "default"),
     "std::option::Option::map_or_else": ("std::option::Option", "Some", "raw", "default-closure"),
     "std::option::Option::filter": ("std::option::Option", "Some", "filter", "None"),
+    "std::option::Option::or_else": ("std::option::Option", None, "payload", "closure-whole"),
+    "std::result::Result::or_else": ("std::result::Result", "Err", "raw", "Ok"),
+    "std::result::Result::unwrap_or_else": ("std::result::Result", "Err", "raw", "payload:Ok"),
 }
 VARIANTS = {"std::option::Option": [[0, "None"], [1, "Some"]], "std::result::Result": [[0, "Ok"], [1, "Err"]]}
 
@@ -631,6 +635,10 @@ class Desugarer:
             if miss == "closure":
                 rv_after = {"k": "use", "op": _mv(n_r)}
                 rv_other = {"k": "use", "op": _mv(n_x, *_payload_proj("Some", enum))}
+            elif miss == "closure-whole":
+                # x.or_else(f): Some(v) stays as it is, None -> f()
+                rv_after = {"k": "use", "op": _mv(n_r)}
+                rv_other = {"k": "use", "op": _mv(n_x)}
             else:
                 rv_after = {"k": "aggregate", "agg": "adt", "adt": "std::result::Result", "variant": "Err", "fields": ["0"], "ops": [_mv(n_r)]}
                 rv_other = {"k": "aggregate", "agg": "adt", "adt": "std::result::Result", "variant": "Ok", "fields": ["0"], "ops": [_mv(n_x, *_payload_proj("Some", enum))]}
@@ -640,6 +648,8 @@ class Desugarer:
                 rv_other = None
             elif default_op is not None:
                 rv_other = {"k": "use", "op": default_op}
+            elif miss.startswith("payload:"):
+                rv_other = {"k": "use", "op": _mv(n_x, *_payload_proj(miss[8:], enum))}
             elif miss_variant == "None":
                 rv_other = agg("None", None)
             else:
